@@ -239,6 +239,9 @@ func Run(spec Spec, opt Options) *Result {
 	}
 
 	e.dfs(root, opt.Depth, 0)
+	progressMu.Lock()
+	progressAt = time.Time{} // the search is over: what follows (conformance replay) is not a single transition
+	progressMu.Unlock()
 	res.States = len(e.visited)
 	for k := range e.visited {
 		res.Digests = append(res.Digests, hex.EncodeToString(k[:8]))
